@@ -282,7 +282,7 @@ def scopes_corr(run, tier, replay_cases=None):
     n = 800 if tier == "quick" else 10000
     cases = []
     if replay_cases is not None:
-        cases = [(c["scope"], [tuple(x) if isinstance(x, list) else x for x in c["input"]]) for c in replay_cases]
+        cases = [(c["scope"], [tuple(x) if isinstance(x, list) else x for x in c["input"]]) for c in replay_cases if c["scope"] in ("attrs", "params", "classes")]
     else:
         cases += [("attrs", ["a-b", "a_b"]), ("attrs", ["Self", "self!", "$Self"]), ("attrs", ["itemId", "item_id", "ItemID"]), ("attrs", ["a b", "a_b", "a-b"]),
                   ("params", [("path", "x_header_path"), ("path", "x_header"), ("query", "X"), ("header", "x")]),
@@ -409,6 +409,371 @@ def _scope_oracle(run, meta):
                 if run.known_finding("xid_gap", f"{scope}: names {inp!r} -> {invalid!r} not identifiers (\\w character outside XID_Continue survives sanitize)"):
                     continue
             run.violation("oracle", {**case, "invalid": invalid, "note": "python name is not a valid non-keyword identifier (not a raw-name fallback, no xid-gap character)"})
+
+
+# ------------------------------------------------------------------ class-name scope with enums (Scopes.model_decls)
+HDR3 = HDR + """
+Require Import OPC.Values.
+Require Import OPC.Scopes.
+Definition fp : str := [102;105;101;108;100;95].
+Definition tbl_same (a b : list (str * evalue)) := Nat.eqb (length a) (length b) &&
+  forallb (fun p => str_eqb (fst (fst p)) (fst (snd p)) && evalue_eqb (snd (fst p)) (snd (snd p))) (combine a b).
+Definition ent_same (a b : str * centry) := eqf (fst a) (fst b) &&
+  match snd a, snd b with CModel, CModel => true | CEnum x, CEnum y => tbl_same x y | _, _ => false end.
+Definition evs_same (a b : list evalue) := Nat.eqb (length a) (length b) && forallb (fun p => evalue_eqb (fst p) (snd p)) (combine a b).
+Definition decl_same (a b : cdecl) := match a, b with
+  | DModel x, DModel y => str_eqb x y
+  | DEnum p x v, DEnum q y w => str_eqb p q && str_eqb x y && evs_same v w
+  | _, _ => false end.
+Definition tabs_ok (t t' : list (str * centry)) := Nat.eqb (length t) (length t') && forallb (fun p => ent_same (fst p) (snd p)) (combine t t').
+Definition errs_ok (e e' : list cdecl) := Nat.eqb (length e) (length e') && forallb (fun p => decl_same (fst p) (snd p)) (combine e e').
+Definition decls_ok (ds : list cdecl) (obs : option (list (str * centry) * list cdecl)) := match model_decls fp ds, obs with
+  | None, None => true
+  | Some (t, e), Some (t', e') => tabs_ok t t' && errs_ok e e'
+  | _, _ => false end.
+Definition is_enum (x : str * centry) := match snd x with CEnum _ => true | _ => false end.
+"""
+
+VALUE_BASES = [["on", "off"], ["a b", "c"], ["red", "green", "blue"], ["x"], ["VALUE_1", "VALUE_2"], [1, 2], [0, 1], ["1a", "2b"], ["-1", "n"], [-1, 3],
+               ["VALUE_NEGATIVE_1", "VALUE_3"], ["a-b", "c d"], ["é", "z"]]
+CLS_BASES = [("foo", "bar"), ("item", "kind"), ("http", "state"), ("a", "b")]
+
+
+def _value_variant(rng, base):
+    """A value list whose MEMBER NAMES mostly coincide with those of `base` while the values differ in case / delimiters / VALUE_n form."""
+    r = rng.random()
+    if all(isinstance(v, int) for v in base):
+        if r < 0.4:
+            return list(base)
+        if r < 0.8:
+            return [("VALUE_%d" % v) if v >= 0 else ("VALUE_NEGATIVE_%d" % -v) for v in base]
+        return [v + rng.choice([0, 0, 1]) for v in base]
+    out = []
+    mode = rng.choice(["same", "upper", "cap", "delim", "mixed", "rev"])
+    for v in base:
+        w = v
+        if mode == "upper" or (mode == "mixed" and rng.random() < 0.5):
+            w = v.upper()
+        elif mode == "cap":
+            w = v.capitalize()
+        elif mode == "delim":
+            w = v.replace(" ", rng.choice(["_", "-", "."])).replace("-", rng.choice(["_", " ", "-"]))
+        out.append(w)
+    if mode == "rev":
+        out.reverse()
+    if r < 0.1:
+        out.append(rng.choice(["extra", "z9"]))
+    return out
+
+
+def _cls_variant(rng, words):
+    a, b = words
+    return rng.choice(["", "", "", "X/"]) + rng.choice(["_", "-", " ", "", "."]).join(
+        [rng.choice([a, a.capitalize()]), rng.choice([b, b.capitalize()])]) if rng.random() < 0.85 else a.capitalize() + b.upper()
+
+
+def gen_decls(rng):
+    """3-6 class-minting declarations around one class name: enums whose member names coincide but whose values differ, equal twins,
+    an inline enum (parent, property) that derives the same class name, and object schemas of that name."""
+    words = rng.choice(CLS_BASES)
+    base = rng.choice(VALUE_BASES)
+    out = []
+    for _ in range(rng.randint(3, 6)):
+        r = rng.random()
+        if r < 0.15:
+            d = ("model", _cls_variant(rng, words))
+        elif r < 0.35:
+            d = ("enum", words[0].capitalize(), rng.choice([words[1], words[1].capitalize(), words[1].upper()]), _value_variant(rng, base))
+        elif r < 0.9:
+            d = ("enum", "", _cls_variant(rng, words), _value_variant(rng, base))
+        else:
+            d = ("enum", "", _cls_variant(rng, rng.choice(CLS_BASES)), _value_variant(rng, rng.choice(VALUE_BASES)))
+        out.append(d)
+    return out
+
+
+def cdecl(d):
+    from lib.vals import cevalue
+    if d[0] == "model":
+        return f"(DModel {cstr(d[1])})"
+    vs = "[" + "; ".join(cevalue(v) for v in d[3]) + "]" if d[3] else "(@nil evalue)"
+    return f"(DEnum {cstr(d[1])} {cstr(d[2])} {vs})"
+
+
+def real_decls(decls):
+    """Thread one Schemas through the real property_from_data (EnumProperty.build / ModelProperty.build) declaration by declaration.
+    Returns None when values_from_list raises ValueError (crash), else (classes_by_name as [(class, 'model' | [(member, value)...])], rejected decls)."""
+    from openapi_python_client import schema as oai
+    from openapi_python_client.parser.properties import property_from_data, Schemas, EnumProperty, ModelProperty
+    from openapi_python_client.parser.errors import ParseError
+    schemas = Schemas()
+    errs = []
+    for d in decls:
+        if d[0] == "model":
+            data = oai.Schema.model_validate({"type": "object"})
+            name, parent = d[1], ""
+        else:
+            data = oai.Schema.model_validate({"enum": list(d[3])})
+            name, parent = d[2], d[1]
+        try:
+            p, schemas = property_from_data(name=name, required=True, data=data, schemas=schemas, parent_name=parent, config=_cfg(), process_properties=True, roots={"root"})
+        except ValueError:
+            return None
+        if isinstance(p, ParseError):
+            errs.append((d, str(p.detail)))
+    tab = []
+    for c, prop in schemas.classes_by_name.items():
+        if isinstance(prop, EnumProperty):
+            tab.append((str(c), list(prop.values.items())))
+        elif isinstance(prop, ModelProperty):
+            tab.append((str(c), "model"))
+        else:
+            tab.append((str(c), "other:" + type(prop).__name__))
+    return tab, errs
+
+
+def centry_term(c, e):
+    from lib.vals import cevalue
+    if e == "model":
+        return f"({cstr(c)}, CModel)"
+    items = "[" + "; ".join(f"({cstr(k)}, {cevalue(v)})" for k, v in e) + "]" if e else "(@nil (str * evalue))"
+    return f"({cstr(c)}, CEnum {items})"
+
+
+def _esc(v):
+    from openapi_python_client.utils import remove_string_escapes
+    return remove_string_escapes(v) if isinstance(v, str) else v
+
+
+def gen_enum_doc(rng):
+    """A document with component enums / object schemas around one class name plus a holder model with one inline enum property."""
+    decls = [d for d in gen_decls(rng) if not (d[0] == "enum" and d[1])]
+    comps, seen = {}, set()
+    for i, d in enumerate(decls):
+        nm = d[1] if d[0] == "model" else d[2]
+        if nm in seen or "#" in nm or not nm:
+            continue
+        seen.add(nm)
+        comps[nm] = {"type": "object", "description": str(i), "properties": {"v": {"type": "string"}}} if d[0] == "model" else {"enum": list(d[3]), "description": str(i)}
+    holder = None
+    if rng.random() < 0.6:
+        words = rng.choice(CLS_BASES)
+        holder = (words[0].capitalize(), words[1], _value_variant(rng, rng.choice(VALUE_BASES)))
+        if holder[0] not in comps:
+            comps[holder[0]] = {"type": "object", "description": "holder", "properties": {holder[1]: {"enum": list(holder[2])}}}
+        else:
+            holder = None
+    return comps, holder
+
+
+def real_enum_doc(comps):
+    data, _ = impl.parse_doc(impl.base_doc(components={"schemas": comps}))
+    if not hasattr(data, "models"):
+        return None
+    enums = [(str(e.class_info.name), list(e.values.items())) for e in data.enums if hasattr(e, "values") and isinstance(e.values, dict)]
+    models = [str(m.class_info.name) for m in data.models]
+    errs = [(getattr(e.data, "description", None), str(e.detail)) for e in data.errors]
+    return enums, models, errs
+
+
+def enum_scope_corr(run, tier, replay_cases=None):
+    rng = run.rng
+    n = 350 if tier == "quick" else 4000
+    m = 120 if tier == "quick" else 1200
+    dcases, docs = [], []
+    if replay_cases is not None:
+        for c in replay_cases:
+            if c["scope"] == "decls":
+                dcases.append([tuple(x) for x in c["input"]])
+            else:
+                docs.append(c["input"])
+    else:
+        dcases += [[("enum", "", "FooBar", ["on", "off"]), ("enum", "Foo", "bar", ["ON", "OFF"])],
+                   [("enum", "", "FooBar", [1, 2]), ("enum", "", "foo_bar", ["VALUE_1", "VALUE_2"])],
+                   [("enum", "", "FooBar", ["on", "off"]), ("enum", "", "foo_bar", ["off", "on"]), ("model", "Foo-Bar")],
+                   [("model", "FooBar"), ("enum", "Foo", "bar", ["x"])],
+                   [("enum", "", "E", ["a", "A"])]]
+        for _ in range(n):
+            dcases.append(gen_decls(rng))
+        docs += [{"FooBar": {"enum": ["on", "off"], "description": "0"},
+                  "Foo": {"type": "object", "description": "holder", "properties": {"bar": {"enum": ["ON", "OFF"]}}}},
+                 {"FooBar": {"enum": [1, 2], "description": "0"}, "foo_bar": {"enum": ["VALUE_1", "VALUE_2"], "description": "1"}}]
+        for _ in range(m):
+            docs.append(gen_enum_doc(rng)[0])
+    terms, meta = [], []
+    for decls in dcases:
+        got = real_decls(decls)
+        case = {"scope": "decls", "input": [list(d) for d in decls]}
+        if got is None:
+            obs = "None"
+        else:
+            tab, errs = got
+            if any(isinstance(e, str) and e.startswith("other:") for _, e in tab):
+                run.violation("correspondence", {"scope_case": case, "impl": got, "note": "unexpected entry kind in classes_by_name"})
+                continue
+            tt = "[" + "; ".join(centry_term(c, e) for c, e in tab) + "]" if tab else "(@nil (str * centry))"
+            ee = "[" + "; ".join(cdecl(d) for d, _ in errs) + "]" if errs else "(@nil cdecl)"
+            obs = f"(Some ({tt}, {ee}))"
+        dd = "[" + "; ".join(cdecl(d) for d in decls) + "]"
+        terms.append(f"decls_ok {dd} {obs}")
+        meta.append((case, got, dd))
+        run.note_case({**case, "impl": got}, nontrivial=True, kind="scope-decls" + ("/crash" if got is None else ("/reported" if got[1] else "")))
+        if got is not None:
+            _enum_tables_oracle(run, case, [(d[3], d) for d in decls if d[0] == "enum"], [(c, e) for c, e in got[0] if e != "model"], [d for d, _ in got[1]])
+    for comps in docs:
+        got = real_enum_doc(comps)
+        case = {"scope": "enumdoc", "input": comps}
+        run.note_case({**case, "impl": got}, nontrivial=True, kind="scope-enumdoc")
+        if got is None:
+            run.violation("oracle", {"scope_case": case, "note": "document of plain enums / object schemas rejected"})
+            continue
+        enums, models, errs = got
+        declared = []
+        for nm, sch in comps.items():
+            if "enum" in sch:
+                declared.append((sch["enum"], ("component", nm), sch.get("description")))
+            for pn, ps in (sch.get("properties") or {}).items():
+                if "enum" in ps:
+                    declared.append((ps["enum"], ("inline", nm, pn), sch.get("description")))
+        reported = {d for d, _ in errs}
+        _enum_tables_oracle(run, case, [(vs, who) for vs, who, desc in declared if desc not in reported], enums, [], declared_all=[vs for vs, _, _ in declared])
+        # correspondence for documents without a holder: components in document order are exactly the fold of Scopes.model_decls
+        if not any(s.get("description") == "holder" for s in comps.values()):
+            order = list(comps.items())
+            decls = [("model", nm) if "enum" not in sch else ("enum", "", nm, sch["enum"]) for nm, sch in order]
+            by_desc = {sch["description"]: d for (nm, sch), d in zip(order, decls)}
+            if any(d not in by_desc for d, _ in errs):
+                run.violation("correspondence", {"scope_case": case, "impl": got, "note": "diagnostic that does not name a declared component"})
+                continue
+            # classes_by_name order is not observable through GeneratorData (models and enums are separate iterators): compare per kind
+            dd = "[" + "; ".join(cdecl(d) for d in decls) + "]"
+            et = "[" + "; ".join(centry_term(c, e) for c, e in enums) + "]" if enums else "(@nil (str * centry))"
+            mt = "[" + "; ".join(centry_term(c, "model") for c in models) + "]" if models else "(@nil (str * centry))"
+            ee = "[" + "; ".join(cdecl(by_desc[d]) for d, _ in errs) + "]" if errs else "(@nil cdecl)"
+            terms.append(f"match model_decls fp {dd} with None => false | Some (t, e) => "
+                         f"tabs_ok (filter is_enum t ++ filter (fun x => negb (is_enum x)) t) ({et} ++ {mt}) && errs_ok e {ee} end")
+            meta.append((case, got, dd))
+    bad = run_cases(HDR3, terms, shard=120)
+    run.corr["cases"] += len(terms)
+    run.corr["mismatches"] += len(bad)
+    run.corr["what"] += ("; classes_by_name after a sequence of real property_from_data calls on enums / object schemas (EnumProperty.build, ModelProperty.build), and the enums / models / "
+                         "diagnostics of GeneratorData.from_dict on documents of component enums and object schemas == Scopes.model_decls")
+    for i in bad[:10]:
+        case, got, dd = meta[i]
+        model = coq_eval(HDR3, f"model_decls fp {dd}")
+        run.violation("correspondence", {"scope_case": case, "impl": got, "model": model[-500:],
+                                         "note": "the class-name scope (enum twins: equal table shared, different table / enum vs model reported) no longer computes Scopes.model_decls"})
+
+
+def _enum_tables_oracle(run, case, surviving_declared, enum_classes, reported, declared_all=None):
+    """Every generated enum class holds exactly the values of ONE declared value list; every declared list that was not reported
+    is held by some generated class."""
+    all_lists = declared_all if declared_all is not None else [vs for vs, _ in surviving_declared]
+    want = [[_esc(v) for v in vs] for vs in all_lists]
+    for c, items in enum_classes:
+        vals = [v for _, v in items]
+        if not any(vals == w and all(type(a) is type(b) for a, b in zip(vals, w)) for w in want):
+            run.violation("oracle", {"scope_case": case, "class": c, "members": items, "declared": all_lists,
+                                     "note": "a generated enum class holds values that are not exactly one declared value list"})
+    held = [[v for _, v in items] for _, items in enum_classes]
+    for vs, who in surviving_declared:
+        if who in reported:
+            continue
+        w = [_esc(v) for v in vs]
+        if not any(sorted(map(repr, h)) == sorted(map(repr, w)) for h in held):
+            run.violation("oracle", {"scope_case": case, "declared": vs, "by": who, "classes": enum_classes,
+                                     "note": "a declared enum is neither reported nor held by any generated class with exactly its values: it was merged silently into another enum"})
+
+
+# ------------------------------------------------------------------ generated trees: module / package names
+OPID_POOL = ["2fa_verify", "$$", "", "class", "import", "None", "getUser", "get-x", "get_x2", "List Items", "1", "_private", "a.b", "é", "match", "def", "x" * 3, "HTTPGet", "9to5", "@@@", "-", "true", "self"]
+TAG_POOL = ["default", "1tag", "$$", "class", "My Tag", "users", "2fa", "_x", "None", "a-b"]
+SCHEMA_POOL = ["Pet", "2fa", "class", "$$", "a b", "None", "HTTPResponse", "import", "9", "_m", "x-y", "é"]
+
+
+def gen_tree_doc(rng):
+    ops, paths = [], {}
+    k = rng.randint(3, 7)
+    ids = []
+    while len(ids) < k:
+        r = rng.random()
+        oid = rng.choice(OPID_POOL) if r < 0.6 else (S.rand_str(rng, S.HOSTILE, 6) if r < 0.8 else rng.choice("0123456789$-") + S.rand_str(rng, S.ORD, 5))
+        if oid not in ids and "Σ" not in oid:
+            ids.append(oid)
+    for i, oid in enumerate(ids):
+        tags = [rng.choice(TAG_POOL)] if rng.random() < 0.8 else [S.rand_str(rng, S.HOSTILE, 4) or "t"]
+        tags = [t for t in tags if "Σ" not in t] or ["default"]
+        paths[f"/p{i}"] = {"get": {"operationId": oid, "tags": tags, "responses": {"200": {"description": "ok"}}}}
+    schemas = {}
+    for nm in rng.sample(SCHEMA_POOL, rng.randint(1, 4)):
+        schemas[nm] = {"type": "object", "properties": {"v": {"type": "string"}}} if rng.random() < 0.7 else {"enum": ["a", "b"]}
+    return impl.base_doc(paths=paths, components={"schemas": schemas})
+
+
+def tree_oracle(run, tier, replay_cases=None):
+    """Stage C on generated trees: every directory and every .py stem under the package root is a valid non-keyword identifier, and
+    the api/<tag>/<module>.py and models/<module>.py names are exactly Names.python_identifier of the parsed tag / operation / class names."""
+    rng = run.rng
+    n = 30 if tier == "quick" else 300
+    docs = [c["input"] for c in replay_cases] if replay_cases is not None else (
+        [impl.base_doc(paths={f"/p{i}": {"get": {"operationId": o, "tags": [t], "responses": {"200": {"description": "ok"}}}}
+                              for i, (o, t) in enumerate([("2fa_verify", "1tag"), ("$$", "$$"), ("class", "class"), ("getUser", "My Tag"), ("", "default")])},
+                       components={"schemas": {"2fa": {"type": "object"}, "class": {"enum": ["a"]}}})] + [gen_tree_doc(rng) for _ in range(n)])
+    terms, meta = [], []
+    for doc in docs:
+        case = {"scope": "tree", "input": doc}
+        data, _ = impl.parse_doc(doc)
+        if not hasattr(data, "models"):
+            run.violation("oracle", {"scope_case": case, "note": "document rejected", "error": str(data)})
+            continue
+        want_tags = {str(t): [e.name for e in c.endpoints] for t, c in data.endpoint_collections_by_tag.items()}
+        raw_tags = sorted({t for p in doc["paths"].values() for op in p.values() for t in op.get("tags") or ["default"]})
+        classes = [str(m.class_info.name) for m in data.models] + [str(e.class_info.name) for e in data.enums]
+        with impl.Gen(doc) as g:
+            if g.exc is not None:
+                run.violation("oracle", {"scope_case": case, "note": "generation raised", "error": repr(g.exc)})
+                continue
+            files = sorted(g.files())
+        run.note_case({"scope": "tree", "operationIds": [e for v in want_tags.values() for e in v], "tags": raw_tags, "classes": classes}, nontrivial=True, kind="tree")
+        comps = set()
+        for f in files:
+            parts = f.split("/")
+            if not f.endswith(".py"):
+                continue
+            for j, part in enumerate(parts):
+                comps.add(("/".join(parts[:j]), part[:-3] if j == len(parts) - 1 else part))
+        for where, comp in sorted(comps):
+            if not comp.isidentifier() or keyword.iskeyword(comp):
+                src = [nm for nm in [e for v in want_tags.values() for e in v] + raw_tags + classes]
+                gapped = [nm for nm in src if any((("a" + ch).isidentifier() is False) and __import__("re").fullmatch(r"\w", ch) for ch in nm)]
+                if gapped and any(ch in comp for nm in gapped for ch in nm if not ("a" + ch).isidentifier()):
+                    if run.known_finding("xid_gap", f"generated path component {comp!r} under {where!r} is not an identifier (\\w character outside XID_Continue)"):
+                        continue
+                run.violation("oracle", {"scope_case": case, "component": comp, "under": where, "files": files[:40],
+                                         "note": "a generated module / package name is not a valid non-keyword Python identifier (not importable)"})
+        # exact names, evaluated in Coq
+        tag_dirs = sorted({f.split("/")[1] for f in files if f.startswith("api/") and f.count("/") >= 2})
+        tg = "[" + "; ".join(cstr(t) for t in raw_tags) + "]"
+        terms.append(f"forallb (fun d => existsb (fun t => eqf (python_identifier t {cstr('tag')} false) d) {tg}) {cstrs(tag_dirs)} && "
+                     f"forallb (fun t => existsb (fun d => eqf (python_identifier t {cstr('tag')} false) d) {cstrs(tag_dirs)}) {tg}")
+        meta.append((case, "tag directories", raw_tags, tag_dirs))
+        for t, names in want_tags.items():
+            stems = sorted(f.split("/")[2][:-3] for f in files if f.startswith(f"api/{t}/") and f.endswith(".py") and not f.endswith("__init__.py"))
+            terms.append(f"forallb (fun s => existsb (fun n => eqf (python_identifier n fp false) s) {cstrs(names)}) {cstrs(stems)} && "
+                         f"forallb (fun n => existsb (fun s => eqf (python_identifier n fp false) s) {cstrs(stems)}) {cstrs(names)}")
+            meta.append((case, f"endpoint modules of api/{t}", names, stems))
+        stems = sorted(f.split("/")[1][:-3] for f in files if f.startswith("models/") and f.endswith(".py") and not f.endswith("__init__.py"))
+        terms.append(f"forallb (fun s => existsb (fun n => eqf (python_identifier n fp false) s) {cstrs(classes)}) {cstrs(stems)} && "
+                     f"forallb (fun n => existsb (fun s => eqf (python_identifier n fp false) s) {cstrs(stems)}) {cstrs(classes)}")
+        meta.append((case, "model modules", classes, stems))
+    bad = run_cases(HDR2, terms, shard=60)
+    run.corr["cases"] += len(terms)
+    run.corr["mismatches"] += len(bad)
+    run.corr["what"] += "; names of api/<tag>/, api/<tag>/<operation>.py and models/<class>.py of generated trees == Names.python_identifier of the parsed tag / operation / class names"
+    for i in bad[:10]:
+        case, what, names, stems = meta[i]
+        run.violation("correspondence", {"scope_case": case, "what": what, "names": names, "generated": stems,
+                                         "note": "generated module / package names are not PythonIdentifier(name) as modelled by Names.python_identifier (python_identifier_valid does not apply to them)"})
 
 
 # ------------------------------------------------------------------ name sets per scope through the parser
